@@ -59,7 +59,8 @@ CHECKS = {
                 technique='invariant at a hook: icontract class invariant on block_token.Document walking the finished tree; differential check of utils.traverse and AstRenderer against own walkers',
                 text='An icontract invariant installed on the real Document class runs at the quiescent point right after construction and checks '
                      'sharing/cycles, parent links, child kinds, heading levels and list start on every tree parsed under five token sets; '
-                     'traverse() (plain, klass, depth) and the AstRenderer JSON are compared with independent walkers of the same tree.',
+                     'traverse() (plain, klass, depth) and the AstRenderer JSON are compared with independent walkers of the same tree; a snapshot of '
+                     'every token (plain attributes, header, child list) taken before and after the token set\'s own renderer rendered the tree must be equal.',
                 note='Child kinds are taken from the class docstrings; Table.header is checked as a row without demanding a parent link.'),
     'C15': dict(category='exploration', design_ref='DESIGN.md section 5, C15',
                 technique='relational monitor over supply forms, including the real CLI in subprocesses with ResourceWarning as error',
@@ -135,7 +136,8 @@ CHECKS = {
                 text='For all 652 spec examples and generated documents (canonical and non-canonical spellings; one third in the renderer\'s own '
                      'normal form), under normalize_whitespace False and True: the round-tripped text must render to identical HTML with an '
                      'identical definition table, a second round trip must be byte-identical, and normal-form input must be reproduced byte for byte. '
-                     'Deterministic families: underline-like content lines; blank lines made of white space other than space / tab between every pair of block kinds.',
+                     'Deterministic families: underline-like content lines; blank lines made of white space other than space / tab between every pair of block kinds. '
+                     'One tree rendered by a normalising and then by a default renderer must give the rendering of a fresh parse.',
                 note='The property\'s excluded input classes and three further mechanisms are known findings listed per spec example; the '
                      'generated domain leaves their shapes out (generator switches) so that any other difference is reported.'),
     'C10': dict(category='exploration', design_ref='DESIGN.md section 5, C10',
